@@ -416,6 +416,10 @@ def run(ctx):
     ctx.add_sample({"script": [ln[:200] for ln in execs[-1][:6]]})
     pipeline.drive_and_validate(ctx, exe, execs, SPEC_DIR, "ParsersTrace", "Trace.cfg", label="parse", nbatch=16 if not thorough else 96, xmx="3g" if not thorough else "6g",
                                 harness_timeout=900, tlc_timeout=1500)
+    # the process-locale family (lib/vlib/locale8.py): a slice of the same executions in a process that called setlocale()
+    from vlib import locale8
+    locale8.rerun(ctx, exe, execs[::5] if not thorough else execs[::3], SPEC_DIR, "ParsersTrace", "Trace.cfg", "parse", names=("xx_XX", "yy_YY", "zz_ZZ"),
+                  nbatch=8, xmx="3g", harness_timeout=900, tlc_timeout=1500)
     # the same parsers on several threads at once (Stateless.tla): one outcome per operation whoever performs it, and a
     # ThreadSanitizer pass over the same scenarios (hidden shared state is a data race whatever the schedule)
     from checks import stateless_common
